@@ -439,11 +439,11 @@ func c01Pairs(c *Ctx) {
 }
 
 // c01Threshold steers results onto 4095/4096/4097 and 65535/65536 elements in one chunk.
-func c01Threshold(c *Ctx) {
-	r := c.R
-	key := genKeys(r, 1)[0] << 16
-	target := []int{4095, 4096, 4097, 4097, 65535, 65536, 32768, 16384, 8192}[r.Intn(9)]
-	op := binOps[r.Intn(4)]
+// genThresholdPair returns operands A, B of one chunk (at the given key, already shifted) and an operation such that
+// A op B has exactly `target` values, the target being one of the representation thresholds.
+func genThresholdPair(r *Rng, key uint64) (ma, mb *ISet, op string, target int) {
+	target = []int{4095, 4096, 4097, 4097, 65535, 65536, 32768, 16384, 8192}[r.Intn(9)]
+	op = binOps[r.Intn(4)]
 	// choose the result set R with |R| = target, then derive A and B so that A op B = R
 	var R *ISet
 	if target >= 65535 {
@@ -507,7 +507,13 @@ func c01Threshold(c *Ctx) {
 		b = noise.AndNot(R)
 	}
 	sh := func(s *ISet) *ISet { return ivsToSet(shiftIVs(s.iv, key)) }
-	ma, mb := sh(a), sh(b)
+	return sh(a), sh(b), op, target
+}
+
+func c01Threshold(c *Ctx) {
+	r := c.R
+	key := genKeys(r, 1)[0] << 16
+	ma, mb, op, target := genThresholdPair(r, key)
 	fa, fb := ownedForms[r.Intn(len(ownedForms))], ownedForms[r.Intn(len(ownedForms))]
 	A, ea := buildForm(r, ma, fa)
 	B, eb := buildForm(r, mb, fb)
